@@ -793,6 +793,25 @@ func (ex *Exec) finishCall(st *State, pc *preparedCall, k func(*State, []Val)) {
 		k(st, ex.callbackApp(*pc.funVal, id.Name, pc.sig, pc.args))
 		return
 	}
+	if id, ok := unparen(call.Fun).(*ast.Ident); ok && pc.funVal != nil && ex.fc != nil && ex.fc.CallsEffects[id.Name] != nil {
+		// calls VAR modifies ...: assumed effects only
+		ex.assumptions[fmt.Sprintf("%s: calls through %s have only the effects listed in its `calls` clause (%s)", ex.name, id.Name, strings.Join(ex.fc.CallsEffects[id.Name], ", "))] = true
+		for _, m := range ex.fc.CallsEffects[id.Name] {
+			switch {
+			case strings.HasPrefix(m, "ghost."):
+				ex.ghostHavoc(st, strings.TrimPrefix(m, "ghost."))
+			case m == "heap":
+				ex.heapHavocAll(st)
+			case strings.HasPrefix(m, "heap "):
+				ex.heapHavocComp(st, ex.qualifyComp(strings.TrimSpace(strings.TrimPrefix(m, "heap ")), ex.fc))
+			default:
+				ex.fail(call.Pos(), "calls %s modifies %q: only heap / heap T.f / ghost.x effects are supported", id.Name, m)
+			}
+		}
+		ex.advanceAlloc(st)
+		k(st, ex.resultVals(st, pc.sig, "call_"+id.Name))
+		return
+	}
 	if id, ok := unparen(call.Fun).(*ast.Ident); ok && pc.funVal != nil && ex.fc != nil && len(ex.fc.Dispatch[id.Name]) > 0 {
 		ex.dispatchCall(st, pc, id.Name, k)
 		return
@@ -1074,6 +1093,9 @@ func (ex *Exec) applyContract(st *State, fc *FuncContract, pc *preparedCall, k f
 	pre := st.clone()
 	preEnv := ex.calleeEnv(pre, fc, fn, pc.recv, pc.args)
 	ex.havocModifies(st, fc, pc)
+	// ASSUMPTION (listed in every evidence file): a contracted callee runs no function value other than the ones
+	// it is handed as arguments; closures stored in the heap earlier are not re-entered by it (an UNcontracted
+	// callee havocs the locals assigned by every closure created so far)
 	ex.havocCallbackEffects(st, fc, pc)
 	if !fc.Pure {
 		ex.advanceAlloc(st)
